@@ -96,6 +96,27 @@ def run(tier, seed, selftest=False, replay=None):
         for j in v.json:
             for cl in j["bad"]:
                 verdict.add(cl, tr[j["case"]], "query clause %s disagrees with HContext after step %d of history %s" % (cl, j["step"], j["case"]))
+    ev_stats = {"programs": 0, "steps": 0}
+    if not replay:
+        langs = ["kotlin", "java", "groovy", "scala"]
+        n = 2 if tier == "quick" else 12
+        evfiles = [f for fl in parallel(lambda i: json.loads(run_driver("ev_ctx.py", [langs[i % 4], json.dumps([seed * 1000 + 10 * i + k for k in range(n)]),
+                                                                                 os.path.join(d, "evctx%d.json" % i)], timeout=3000)), range(8)) for f in fl]
+        evvals = parallel(lambda f: tlc_must("HContextEvTrace", cfg(init="TInit", next_="TNext", constraints=["AtEnd"], constants={"Values": "{}"})
+                                             .replace("CONSTANTS\n", "CONSTANTS\n  NSs <- TraceNSs\n"),
+                                             env={"TRACE_FILE": f}, workers=1, name="evctx", timeout=3000, mem="4g"), evfiles)
+        for f, v in zip(evfiles, evvals):
+            cs = {c["id"]: c for c in read_json(f)["cases"]}
+            got = {j["case"]: j for j in v.json}
+            for cid, c in cs.items():
+                ev_stats["programs"] += 1
+                ev_stats["steps"] += len(c["ops"])
+                j = got.get(cid)
+                if j is None or j["steps"] != len(c["ops"]):
+                    raise MachineryError("EV C16: history of %s not consumed" % cid)
+                for cl, a, b in j["bad"]:
+                    verdict.add("EV:" + cl, {"id": cid, "where": [a, b]}, "after the generator's own %d symbol-table steps for %s: %s at %s %s" % (len(c["ops"]), cid, cl, a, b))
+        T("EV validated")
     rc = verdict.finish()
     sample = read_json(files[0])["cases"][-1]
     write_evidence(PID, tier, seed, "model_checking", {
@@ -111,6 +132,8 @@ def run(tier, seed, selftest=False, replay=None):
                 "get_namespaces_decls and get_namespace are recorded and compared by TLC with the model. distinct = distinct histories.",
         "model_states_per_alphabet": {g.alphabet: g.distinct for g in gens},
         "design_invariants": ["MirrorInv", "RevInv", "EnclosingInv", "LookupInv", "NoDupNames", "ComposeOK"],
+        "ev_generator_histories": dict(ev_stats, note="Context._add_entity/_remove_entity recorded while real programs are generated, replayed by "
+                                       "TLC through HContext (one state per primitive step); the real final context and reverse lookups compared"),
         "exhaustive": False,
     }, time.time() - t0, len(verdict.violations),
         ["a name is not used for two different mirrored kinds (function, variable, class) in one namespace (identifiers of a scope are unique)",
